@@ -6,6 +6,7 @@ package server
 // package are switched to vquic by vgen.
 
 import (
+	"os"
 	"crypto/tls"
 	"errors"
 	"fmt"
@@ -333,3 +334,8 @@ func (r *rig) firstIndex(f func(rigEvent) bool) int {
 var errRigDial = errors.New("rig: dial refused")
 
 func rigItoa(i int) string { return strconv.Itoa(i) }
+
+// newRigSock returns a fresh fake UDP socket (for client ConnFactories).
+func newRigSock(name string, port int) *vnet.PacketConn { return vnet.NewPacketConn(name, port) }
+
+func getenvTier() string { return os.Getenv("VERIF_TIER") }
